@@ -23,9 +23,11 @@ def snap(obj):
                          "cols": [[str(c), str(obj[c].dtype), [repr(v) for v in obj[c].tolist()]] for c in obj.columns]},
                 "dtypes": [str(t) for t in obj.dtypes], "index_name": obj.index.name}
     if isinstance(obj, pd.Series) and isinstance(obj.dtype, NestedDtype):
-        return {"index": export.labels(obj.index), "name": obj.name, "rows": weak_rows(export.rows_view(obj.array)), "dtype": str(obj.dtype)}
+        return {"index": export.labels(obj.index), "name": obj.name, "rows": weak_rows(export.rows_view(obj.array)), "dtype": str(obj.dtype),
+                "index_name": obj.index.name}
     if isinstance(obj, pd.Series):
-        return {"index": export.labels(obj.index), "name": obj.name, "vals": [repr(v) for v in obj.tolist()], "dtype": str(obj.dtype)}
+        return {"index": export.labels(obj.index), "name": obj.name, "vals": [repr(v) for v in obj.tolist()], "dtype": str(obj.dtype),
+                "index_name": obj.index.name}
     return repr(obj)
 
 
@@ -57,6 +59,11 @@ def run_family(ctx, steps):
     fam = {"O": O, "C": O.copy(), "S": O.iloc[1:], "K": O[["n", "x", "other"]], "E": O["n"], "A": A, "ser_arg": ser_arg,
            # plain argument objects a caller keeps: positions (with negatives), a list of sort directions, a list of columns
            "P": np.array([-1, 0], dtype=np.int64), "ASC": [False, True], "BY": ["n.a", "n.b"], "SUBSET": ["n.a"]}
+    # a nested Series a caller keeps, over an index with its OWN name (and the frame it was taken from)
+    D = O[["n", "k"]].copy()
+    D.index = D.index.rename("donor_id")
+    fam["D"] = D
+    fam["DS"] = D["n"]
     fam["R"] = O.add_nested(A, "m")
     hist = [{"start": s.desc(), "labels": labels, "flat_labels": flab}]
 
@@ -72,7 +79,8 @@ def run_family(ctx, steps):
             if kind == "pure":
                 tname = rng.choice(frames)
                 X = fam[tname]
-                op = rng.choice(["query", "eval", "eval_assign", "sort", "dropna", "add_nested", "reduce", "with_flat", "without",
+                op = rng.choice(["query", "eval", "eval_assign", "sort", "dropna", "add_nested", "add_nested_series", "add_nested_series",
+                                 "reduce", "with_flat", "without",
                                  "to_parquet", "to_flat", "from_flat", "pack", "setitem_series_new_nest", "nest_lists", "take",
                                  "take_all", "mask_all", "loc_all", "iloc_all", "query_base_all", "concat_with_empty",
                                  "concat_empty_first", "reindex_same", "series_take_all", "series_concat_empty",
@@ -91,6 +99,8 @@ def run_family(ctx, steps):
                     new = X.dropna(subset="n.a")
                 elif op == "add_nested":
                     new = X.add_nested(fam["A"], f"m{step}")
+                elif op == "add_nested_series":
+                    new = X.add_nested(fam["DS"], f"ms{step}", how=rng.choice(["left", "left", "outer", "inner"]))
                 elif op == "reduce":
                     new = X.reduce(lambda a: {"s": float(np.nansum(np.asarray(a, dtype=float)))}, "n.a")
                 elif op == "with_flat":
